@@ -435,11 +435,36 @@ func init() {
 			}
 		}
 		// a secp256k1 key held as a generic ECDSA key must get the same DID (16 keys: both parities of X and Y occur)
+		// ... plus points with a coordinate that has a leading zero byte (found by search: about one key in 128)
+		var coerced []*realKey
 		for n := 1; n <= 16; n++ {
 			k, err := kr.get("secp256k1", n)
 			if err != nil {
 				return err
 			}
+			coerced = append(coerced, k)
+		}
+		shortX, shortY := 0, 0
+		for n := 17; n < 4000 && (shortX < 2 || shortY < 2); n++ {
+			k, err := kr.get("secp256k1", n)
+			if err != nil {
+				return err
+			}
+			x, y, _, err := ecPoint(k)
+			if err != nil {
+				continue
+			}
+			switch {
+			case len(x.Bytes()) < 32 && shortX < 2:
+				shortX++
+				coerced = append(coerced, k)
+			case len(y.Bytes()) < 32 && shortY < 2:
+				shortY++
+				coerced = append(coerced, k)
+			}
+		}
+		rep.Extra["coerced_keys_with_short_coordinate"] = shortX + shortY
+		for _, k := range coerced {
 			x, y, _, err := ecPoint(k)
 			if err != nil {
 				continue
